@@ -24,9 +24,14 @@ func (m *MTProto) sendPacket(request tl.Object, expectedTypes ...reflect.Type) (
 		return nil, errors.Wrap(err, "encoding request message")
 	}
 
+	// must write synchroniously, cuz seqno must be upper each request, and message ids must grow in the same
+	// order as messages are written. so, id is generating under the same lock as writing
+	m.seqNoMutex.Lock()
+	defer m.seqNoMutex.Unlock()
+
 	var (
 		data  messages.Common
-		msgID = utils.GenerateMessageId()
+		msgID = m.nextMessageID()
 	)
 
 	// adding types for parser if required
@@ -55,10 +60,6 @@ func (m *MTProto) sendPacket(request tl.Object, expectedTypes ...reflect.Type) (
 		}
 	}
 
-	// must write synchroniously, cuz seqno must be upper each request
-	m.seqNoMutex.Lock()
-	defer m.seqNoMutex.Unlock()
-
 	err = m.transport.WriteMsg(data, MessageRequireToAck(request))
 	if err != nil {
 		return nil, errors.Wrap(err, "sending request")
@@ -73,6 +74,17 @@ func (m *MTProto) sendPacket(request tl.Object, expectedTypes ...reflect.Type) (
 	}
 
 	return resp, nil
+}
+
+// nextMessageID generates id of message, which is strictly bigger than any id generated before, even if clock
+// didn't move between two calls. MUST be called under seqNoMutex.
+func (m *MTProto) nextMessageID() int64 {
+	msgID := utils.GenerateMessageId()
+	if msgID <= m.lastMsgID {
+		msgID = m.lastMsgID + 4 //nolint:gomnd message ids of client are multiples of 4
+	}
+	m.lastMsgID = msgID
+	return msgID
 }
 
 func (m *MTProto) writeRPCResponse(msgID int, data tl.Object) error {
